@@ -17,6 +17,8 @@ Silent == /\ l <= Len(Trace) /\ UNCHANGED l /\ Next
 TReturn == /\ IsEvent("Return") /\ exit # -1
            /\ ~Trace[l].crash
            /\ Trace[l].exit \in ExitSet(c)
+           \* the flags bound the retrying: -timeout=400ms -max_retry_delay=60ms (or less) means the tool is done well within five seconds
+           /\ (c.net \in {"unreachable", "serverError", "tcbFails", "qeFails"} => Trace[l].elapsedMs <= 5000)
            \* a failing run says why on stderr ("FATAL: ..."), except under -quiet, where the exit code says it all.
            \* DEV (as coded): -quiet's help text promises "nothing on stdout or stderr"; the logger's INFO lines on stdout and the flag
            \* package's usage text are written regardless, so only the FATAL line is bound here.
